@@ -113,6 +113,8 @@ def run_handler(F, T, fn, top_value, arg0=None):
 
 def run(ctx, rep):
     F = ctx.facts("default", ["bytecode", "compiler"])
+    from props import _keywords
+    rep.floor("C12.keyword-boundary nil judged", _keywords.run(F, rep, "C12.keyword-boundary", only={"nil"}), 1)
     T = tables.Tables(F)
     rep.explain("C12: the three optional-handling instruction handlers are read as decision tables over {nil, present optional, plain value} by abstract "
                 "interpretation; the generators of `get`, `or`, `?=` are evaluated to symbolic instruction sequences; the `get` position string is traced "
